@@ -14,6 +14,7 @@ pub mod c24;
 pub mod c25;
 pub mod c11;
 pub mod c14;
+pub mod c15;
 pub mod c16;
 pub mod c17;
 pub mod c26;
@@ -41,6 +42,7 @@ pub fn dispatch(ctx: &Ctx) -> i32 {
         "C25" => c25::run(ctx, &mut rec),
         "C11" => c11::run(ctx, &mut rec),
         "C14" => c14::run(ctx, &mut rec),
+        "C15" => c15::run(ctx, &mut rec),
         "C16" => c16::run(ctx, &mut rec),
         "C17" => c17::run(ctx, &mut rec),
         "C26" => c26::run(ctx, &mut rec),
